@@ -151,6 +151,35 @@ def message_for(key):
     return _untraced(build)
 
 
+HANDLER_ERRORS = []
+
+
+def _record_handler_errors(message_handler):
+    """the event layer logs and swallows exceptions raised by subscribers; wrap the subscription records (not the code) so
+    that 'no handler raises' is observable: the wrapper records and re-raises"""
+    for event in message_handler.handlers.values():
+        for i, sub in enumerate(list(event.subscribers)):
+            h = sub[0]
+            if getattr(h, "_verif_recorder", False) or asyncio.iscoroutinefunction(h):
+                continue
+
+            def make(h):
+                def recorder(*a, **kw):
+                    try:
+                        return h(*a, **kw)
+                    except Exception as e:  # noqa
+                        HANDLER_ERRORS.append(f"{getattr(h, '__qualname__', h)}: {e!r}")
+                        raise
+                recorder._verif_recorder = True
+                return recorder
+            event.subscribers[i] = (make(h),) + tuple(sub[1:])
+
+
+_record_handler_errors(px.SESSION.message_handler)
+for _r in REGIONS:
+    _record_handler_errors(_r.message_handler)
+
+
 def deliver(msg, ri):
     msg.sender = REGIONS[ri].circuit_addr
     px.SESSION.message_handler.handle(msg)
@@ -162,6 +191,7 @@ def pump():
 
 
 def fresh():
+    del HANDLER_ERRORS[:]
     rec = px.Recorder()
     px.PROTO.transport = rec
     px.SM.message_logger = None
@@ -292,7 +322,7 @@ def consistent(m: Model) -> bool:
     for fut, ri, local, kind, must in m.futs:
         if must and not fut.done():
             return False
-    return True
+    return not HANDLER_ERRORS
 
 
 # ------------------------------------------------------------------------------------------------ events
